@@ -8,6 +8,7 @@ import (
 	"fmt"
 	"log/slog"
 	"net"
+	"net/netip"
 	"strconv"
 	"strings"
 
@@ -180,7 +181,7 @@ func newWorld(g int) *world {
 	return w
 }
 
-var remotes = []string{"192.0.2.7:4711", "[2001:db8::7]:4711", "garbage"}
+var remotes = []string{"192.0.2.7:4711", "[2001:db8::7]:4711", "garbage", "[fe80::1%eth0]:4711", "[::ffff:192.0.2.9]:80"}
 
 func request(kind int, remote string) (string, string) {
 	switch kind {
@@ -230,7 +231,12 @@ func expectedMsg(g, kind int, remote string) (string, bool) {
 		if err != nil {
 			return "", false // garbage: the statement does not say
 		}
-		return (&net.IPAddr{IP: net.ParseIP(host)}).String(), true
+		a, err := netip.ParseAddr(host)
+		if err != nil {
+			return "", false
+		}
+		// the remote address as net.IPAddr renders it (zone kept, IPv4-mapped shown as IPv4)
+		return (&net.IPAddr{IP: net.IP(a.WithZone("").AsSlice()), Zone: a.Zone()}).String(), true
 	}
 	res := g // which resolver applies
 	switch kind {
